@@ -280,3 +280,27 @@ PROPS = {
                 "concurrent round ran / another property's workload ran under the detector.",
     },
 }
+
+# Rare conditions each check is expected to reach in a complete run of its quick tier (a stat that stays at zero means
+# the workload or the fault mix has gone blind there; the driver prints SELF-ASSESSMENT lines and records them in the
+# evidence - never a verdict, never an exit code).
+EXPECTED = {
+    "C01": ["probe.tip_queued_during_start", "op.restart_moving", "op.fork.depth3", "probe.notification_overtook_other_queue"],
+    "C02": ["probe.explicit_input_of_another_local_wallet", "probe.explicit_input_of_nobody_here", "probe.multi_input_tx_built",
+            "probe.change_output_built", "probe.fee_shared_by_several_recipients", "probe.insufficient_funds_reported"],
+    "C03": ["probe.sign_staking_withdrawal_input", "probe.sign_binding_withdrawal_input", "probe.signing_spend_of_pending_output",
+            "probe.concurrent_signers"],
+    "C04": ["check.internal_addresses_match_derivation", "check.internal_key_matches_address", "op.restart"],
+    "C05": ["check.duplicate_import_refused", "check.disk_scan", "probe.wrong_pass_after_unlock"],
+    "C06": ["fault.crash", "fault.torn_write", "probe.four_tasks_unfinished", "probe.recovery_while_chain_moves",
+            "probe.inflight_create_survived", "op.remove_wallet", "op.import_mnemonic"],
+    "C07": ["probe.chain_moved_while_importing", "probe.reorg_during_or_after_rescan", "probe.restart_while_importing"],
+    "C08": ["probe.removed_wallet_had_coins", "probe.reorg_during_removal", "check.survivor_unchanged", "check.reimport",
+            "probe.sign_staking_withdrawal_input"],
+    "C09": ["probe.pending_expected", "probe.pending_expected_after_second_announcement", "probe.notification_overtook_other_queue",
+            "op.restart_moving"],
+    "C10": ["check.games.nonempty", "op.restart_moving", "gen.two_deposits_in_one_tx"],
+    "C12": ["check.new_address", "op.restart_moving"],
+    "C20": ["probe.stop_issued_while_task_in_flight", "probe.stop_issued_with_tips_queued", "check.stop_returned", "check.liveness"],
+}
+
